@@ -21,6 +21,10 @@ COMPILERS = {"rel": "g++", "asan": "clang++", "tsan": "clang++"}
 # property table. engine "rc": a rapidcheck executable built in the `rel` flavour.
 # quick/thorough: (multiplier on each sub-check's base case count, number of parallel seeds)
 PROPS = {
+    "C02": dict(engine="rc", exe="c02", quick=(1, 6), thorough=(15, 16),
+                assumptions=["which features contain a point is decided by the code itself on single-feature worlds (independent of the stack)",
+                             "fold oracle covers uniform temperature/composition models; other models are covered by the deletion/permutation relation",
+                             "velocity: only 'a slab/fault without velocity models leaves the velocity as it was' is asserted"]),
     "C01": dict(engine="rc", exe="c01", quick=(1, 6), thorough=(15, 16),
                 assumptions=["random models are excluded (C15 covers them)", "'stand-alone' = the same entry point with a one-element list on a twin world built from the same file, plus temperature()/composition()/grains()"]),
     "C03": dict(engine="rc", exe="c03", quick=(1, 4), thorough=(20, 16),
@@ -141,8 +145,8 @@ def check_rc(pid, cfg, tier, seed):
         if st == "fail":
             if is_known:
                 for k in known:
-                    if k["status"] == "known" and k["signature"] == sig:
-                        known_lines[sig] = k["what"]
+                    if k["status"] == "known" and k["signature"] in sig.split("+"):
+                        known_lines[k["signature"]] = k["what"]
             else:
                 violations.append((path, out.strip().splitlines()[-1] if out.strip() else sig))
         elif st == "error":
